@@ -86,7 +86,7 @@ func Quote(s string, lang LangVariant) (string, error) {
 		rem = rem[size:]
 		offs += size
 	}
-	if !shellChars && !nonPrintable && !IsKeyword(s) {
+	if !shellChars && !nonPrintable && !IsKeyword(s) && !startsClause(s) {
 		// Nothing to quote; avoid allocating.
 		return s, nil
 	}
@@ -181,4 +181,15 @@ func Quote(s string, lang LangVariant) (string, error) {
 func isHex(r rune) bool {
 	return (r >= '0' && r <= '9') ||
 		(r >= 'a' && r <= 'f') || (r >= 'A' && r <= 'F')
+}
+
+// startsClause returns true if the given word, while not a keyword,
+// makes our parser begin a clause of its own rather than a simple command,
+// such as "let" or "declare".
+func startsClause(word string) bool {
+	switch word {
+	case "let", "declare", "local", "export", "readonly", "typeset", "nameref", "@test":
+		return true
+	}
+	return false
 }
